@@ -107,3 +107,20 @@ Example C13_built_record_insert_runs :
   | _, _ => ([], Err InvalidPacket)
   end = ([0;7; 129;128; 0;1; 0;1; 0;0; 0;0;  1;97;0; 0;1; 0;1;  1;119;1;97;0; 0;1; 0;1; 0;0;0;60; 0;4; 10;0;0;1]%N, Ok tt).
 Proof. vm_compute. reflexivity. Qed.
+
+(** the same for the records whose data is one name - NS, CNAME, PTR, built by the grammar's name-record builder: owner and target
+    texts are converted alike, the result is the pointer-free encoding of a record well-formed in every context whose owner labels
+    and data labels are the labels of the two texts; C09_insert_effect / C08_insert_view then give the insertion clause for it *)
+Theorem C13_built_name_record_is_insertable : forall t name ttl target rr,
+  build_name_rr t name ttl target = Ok rr -> is_name_type t = true -> (ttl < 4294967296)%N ->
+  exists ls ls2, Forall label_ok ls /\ Forall label_ok ls2 /\
+    (name = dotted ls \/ name = dots ls \/ (name = [46%N] /\ ls = [])) /\
+    (target = dotted ls2 \/ target = dots ls2 \/ (target = [46%N] /\ ls2 = [])) /\
+    rr = plain_record (name_rec ls t CLASS_IN ttl ls2) /\ plain_rr_ok (name_rec ls t CLASS_IN ttl ls2).
+Proof. exact build_name_rr_is_plain_record. Qed.
+Print Assumptions C13_built_name_record_is_insertable.
+
+Example C13_name_rec_means : forall ls t c ttl ls2,
+  plain_record (name_rec ls t c ttl ls2) =
+  wire_of_labels ls ++ be16_bytes t ++ be16_bytes c ++ be32_bytes ttl ++ be16_bytes (N.of_nat (length (wire_of_labels ls2))) ++ wire_of_labels ls2.
+Proof. reflexivity. Qed.
